@@ -181,6 +181,14 @@ class LocMotor(Motor):
         return self._ret("locate", {"setpoint": self.position, "readback": self.position})
 
 
+class AsyncLocMotor(Motor):
+    """Locatable whose locate() is a coroutine (ophyd-async style): a fault raises when the coroutine runs."""
+
+    async def locate(self):
+        self._rec("locate")
+        return self._ret("locate", {"setpoint": self.position, "readback": self.position})
+
+
 class Det(Stageable_):
     """Triggerable + Readable; value is a pure function of the motors it watches."""
 
